@@ -910,3 +910,5 @@ def run(ck):
         c07_4(ck, prog)
         c07_5(ck, prog)
         c07_6(ck, prog)
+        from rules.C06 import c06_12
+        c06_12(ck, prog, 'C07.8')
